@@ -756,6 +756,10 @@ func goCode(root string, unit string) string {
 		header("Model.GoSem", "Model.GoSlices", "Model.GoCtl", "Model.GoConv", "Model.Mime", "Generated.GoFeed", "Generated.GoHistory")
 		text, errs := translateUpdate(root)
 		emit("ui/ui.go ((*State).Update)", text, errs)
+	case "hook":
+		header("Model.GoSem", "Model.GoSlices", "Model.GoStrings", "Generated.GoMime")
+		text, errs := translateHook(root)
+		emit("ui/ui.go ((*State).openExternally and the goroutine it starts)", text, errs)
 	default:
 		b.WriteString("-- unknown unit " + unit + "\n")
 	}
